@@ -2,6 +2,7 @@ import Pxv.Driver.Body
 import Pxv.Driver.CG
 import Pxv.Driver.Server
 import Pxv.Driver.Store
+import Pxv.Driver.Session
 open Pxv.Driver
 
 def main (args : List String) : IO UInt32 := do
@@ -10,4 +11,5 @@ def main (args : List String) : IO UInt32 := do
   | ["cg"] => serve Pxv.CG.handle; return 0
   | ["server"] => serve Pxv.Server.handle; return 0
   | ["store"] => Pxv.Store.serveIO Pxv.Store.handleIO; return 0
+  | ["session"] => serve Pxv.Session.handle; return 0
   | _ => IO.eprintln "usage: pxmodel <model>"; return 2
